@@ -162,6 +162,23 @@ func qfdOp(a []string) string {
 			return "err"
 		}
 		return "ok " + showDescs(l)
+	case "unm2":
+		// two inputs parsed one after the other into the same variable: the parser starts from an empty list each time
+		hs := strings.Split(a[1], ",")
+		if len(hs) != 2 {
+			return "bad-op"
+		}
+		b1, ok1 := unhex(hs[0])
+		b2, ok2 := unhex(hs[1])
+		if !ok1 || !ok2 {
+			return "bad-op"
+		}
+		var l nasType.QoSFlowDescs
+		_ = l.UnmarshalBinary(b1)
+		if err := l.UnmarshalBinary(b2); err != nil {
+			return "err"
+		}
+		return "ok " + showDescs(l)
 	case "mar":
 		l, ok := parseDescsText(a[1])
 		if !ok {
@@ -398,6 +415,22 @@ func qrOp(a []string) string {
 			return "err"
 		}
 		return "ok " + showRules(l)
+	case "unm2":
+		hs := strings.Split(a[1], ",")
+		if len(hs) != 2 {
+			return "bad-op"
+		}
+		b1, ok1 := unhex(hs[0])
+		b2, ok2 := unhex(hs[1])
+		if !ok1 || !ok2 {
+			return "bad-op"
+		}
+		var l nasType.QoSRules
+		_ = l.UnmarshalBinary(b1)
+		if err := l.UnmarshalBinary(b2); err != nil {
+			return "err"
+		}
+		return "ok " + showRules(l)
 	case "mar":
 		l, ok := parseRulesText(a[1])
 		if !ok {
@@ -466,12 +499,12 @@ type sPf struct {
 	comps   []sComp
 }
 type sRule struct {
-	id, op      int
-	dqr         bool
-	pfs         []sPf
-	prec        int
-	seg         bool
-	qfi         int
+	id, op int
+	dqr    bool
+	pfs    []sPf
+	prec   int
+	seg    bool
+	qfi    int
 }
 
 func (c sComp) wire() []byte {
@@ -590,6 +623,26 @@ func oracleC15(op string, a []string) string {
 		return skip
 	}
 	switch a[0] {
+	case "unm2":
+		var r, fresh string
+		hs := strings.Split(a[1], ",")
+		if len(hs) != 2 {
+			return skip
+		}
+		if op == "qfd" {
+			r = withTimeout(func() string { return qfdOp(a) })
+			fresh = qfdOp([]string{"unm", hs[1]})
+		} else {
+			r = withTimeout(func() string { return qrOp(a) })
+			fresh = qrOp([]string{"unm", hs[1]})
+		}
+		if r == "panic" || r == "hang" || r == "bad-op" {
+			return "FAIL " + r
+		}
+		if r != fresh {
+			return "FAIL parsing into a variable that was parsed into before differs from a fresh parse: " + r + " (fresh: " + fresh + ")"
+		}
+		return "pass"
 	case "unm":
 		// totality: a value or an error, never a panic, never a hang; a successful parse re-serialises and parses to the same list
 		var r string
@@ -780,6 +833,7 @@ func (g *Gen) sRule() sRule {
 }
 
 func genQos(g *Gen, w *bufio.Writer) {
+	var prevQfd, prevQr []byte
 	thorough := g.Tier == "thorough"
 	// exhaustive short inputs
 	for _, op := range []string{"qfd", "qr"} {
@@ -814,6 +868,16 @@ func genQos(g *Gen, w *bufio.Writer) {
 		fmt.Fprintf(w, "qfd mar %s\n", descsText(l))
 		b := specEncDescs(l)
 		fmt.Fprintf(w, "qfd unm %s\n", hexs(b))
+		if prevQfd != nil {
+			// the same variable parsed into twice (a create list, then a delete list with no parameters at the same positions)
+			fmt.Fprintf(w, "qfd unm2 %s,%s\n", hexs(prevQfd), hexs(b))
+			del := []byte{}
+			for k := 0; k < 3; k++ {
+				del = append(del, byte(1+g.Intn(60)), 0x40, 0x00)
+			}
+			fmt.Fprintf(w, "qfd unm2 %s,%s\n", hexs(b), hexs(del))
+		}
+		prevQfd = b
 		if i < g.N/3 {
 			for cut := 0; cut < len(b); cut++ {
 				fmt.Fprintf(w, "qfd unm %s\n", hexs(b[:cut]))
@@ -865,6 +929,10 @@ func genQos(g *Gen, w *bufio.Writer) {
 		fmt.Fprintf(w, "qr mar %s\n", rulesText(l))
 		b := specEncRules(l)
 		fmt.Fprintf(w, "qr unm %s\n", hexs(b))
+		if prevQr != nil {
+			fmt.Fprintf(w, "qr unm2 %s,%s\n", hexs(prevQr), hexs(b))
+		}
+		prevQr = b
 		if i < g.N/3 {
 			for cut := 0; cut < len(b); cut++ {
 				fmt.Fprintf(w, "qr unm %s\n", hexs(b[:cut]))
